@@ -231,8 +231,8 @@ class Canon:
                     name = f"getlk {role}"
             elif sc == "read" and role == "ctx":
                 name = "read ctx"
-            elif sc == "newfstatat" and role == "ctx":
-                name = "fstat ctx"
+            elif sc == "newfstatat" and role in ("ctx", "ol"):
+                name = f"fstat {role}"
             elif sc == "close":
                 foreign = len(self.events) - f[1] - f[2]
                 del self.fd[fdn]
@@ -638,6 +638,8 @@ def check_cleaners(ctx, quick):
         scheds.append((ncl, [i for i in range(ncl) for _ in range(nsteps - 1)]))
     # the second cleaner waits just before `setlk ol` while the first one cleans up completely (double acquisition)
     scheds.append((2, [1] * (nsteps - 1) + [0] * 60))
+    # the second cleaner's F_SETLK has failed (EAGAIN) and it waits before the link-count check while the first one finishes
+    scheds.append((2, [0] * nsteps + [1] * nsteps))
     for _ in range(3 if quick else 40):
         ncl = rng.choice([2, 3, 4])
         scheds.append((ncl, [rng.randrange(ncl) for _ in range(rng.randrange(10, 45 * ncl))]))
@@ -769,7 +771,10 @@ def finding_cleanup_failure(ctx):
         s1 = c.survey()
         s2 = c.survey()
         left = c.ls()
-        return ("list=Dead" in s1 and "clean=err:" in s1 and "list=-" in s2 and left == "det,dir,tag"), f"survivors: {s1}; again: {s2}"
+        m = model(["reset", "spawn o owner 0 0", "run o", "kill o", "tag final", "spawn c cleaner 2 svcfails", "run c", "show c", "survey"])
+        agrees = mshow(m[-2])["clean"] == s1.split("clean=")[1].split(" ")[0] and m[-1] == s2
+        return ("list=Dead" in s1 and "clean=err:" in s1 and "list=-" in s2 and left == "det,dir,tag"), \
+            f"survivors: {s1}; again: {s2}; model (cleaner whose service-level removal fails) {'agrees' if agrees else 'DIFFERS: ' + m[-2] + ' / ' + m[-1]}"
     finally:
         c.cleanup()
 
@@ -818,7 +823,7 @@ FINDINGS = [
      "DeadNodeView::remove_stale_resources_impl returns through `cleanup_failure?` (node/mod.rs:661, :707) with the Cleaner still a live local: it is dropped normally, "
      "StateFiles::drop removes context / state / owner-lock, although tags, details, directory and the node's service registration and data segments were not removed. "
      "Afterwards Node::list no longer shows the node and nothing ever collects the rest (replay: dead node with a publisher; the service's static config edited to another "
-     "iceoryx2 minor version so that removing the node from the service fails; not in the Lean model, which has no failing service-level removal)",
+     "iceoryx2 minor version so that removing the node from the service fails; theorem C04Fs.failed_service_removal_drops_token)",
      finding_cleanup_failure),
     ("finding:D27-second-cleaner-acquires-after-first-finished",
      "ProcessCleaner::new does not re-check the link count after a successful F_SETLK on the owner-lock file (process_state.rs:1258-1262): a cleaner that opened the "
@@ -856,7 +861,8 @@ RULE = ("real NodeBuilder::create / Node drop / Node::list / DeadNodeView::try_r
         "(Node::list verdict, raw ProcessState, clean-up result, files left by role) = the model's prediction; (iii) this driver as scheduler (SIGSTOP after every "
         "system call, SIGCONT per step): owner stopped after each of its steps ∥ complete Node::list; monitor stopped after each of its steps ∥ owner finishing; "
         "2..4 concurrent cleaners (all at the lock at once, one waiting at the lock while another finishes, random schedules) — verdicts, results and leftovers = model; "
-        "witnesses of the refuted statements replayed")
+        "witnesses of the refuted statements replayed (among them two end-to-end ones with a real service and publisher: a publisher killed inside create_port_tag, "
+        "a dead node whose service-level removal fails)")
 
 ASSUME = [
     "uid 0 (sandbox): open() never fails with EACCES; the monitor's open(ctx, O_WRONLY) succeeds also on a 0400 file and the decision is taken by fstat. "
